@@ -385,6 +385,7 @@ type Exec struct {
 	OptionalSeen       int
 	MayMissObserved    int
 	LostBehindOOOMerge int
+	lostSticky         map[string]map[int64]bool // samples once tolerated as lost behind a merged out-of-order block
 	Steps              []string
 	// Stats
 	Accepted, Rejected, OOOAccepted                    int
@@ -759,6 +760,17 @@ func (e *Exec) modelAppend(op Op, rec AckRec) {
 			for _, vk := range s.AllowedKeys() {
 				z[vk] = true
 			}
+			// ... or none: the out-of-order head still holds the zombie, so an identical re-append
+			// is a no-op there (the out-of-order counter does not move) and the sample stays
+			// hidden behind the tombstone of the earlier delete, exactly like a ghost
+			if e.maybeOOO[k] == nil {
+				e.maybeOOO[k] = map[int64]bool{}
+			}
+			e.maybeOOO[k][s.T] = true
+			if e.Ghosts[k] == nil {
+				e.Ghosts[k] = map[int64]bool{}
+			}
+			e.Ghosts[k][s.T] = true
 		}
 	}
 }
@@ -810,7 +822,7 @@ func (e *Exec) noteAppend(s SampleOp, err error, accepted *[]SampleOp) {
 
 // effective returns the expectation with observed zombies admitted.
 func (e *Exec) effective(d tsdbx.Dump) tsdbx.Expect {
-	if len(e.Zombies) == 0 && len(e.Ghosts) == 0 && len(e.DeletedVals) == 0 && len(e.orphan) == 0 && len(e.oooBlocks) == 0 && len(e.Optional) == 0 && len(e.MayMiss) == 0 {
+	if len(e.Zombies) == 0 && len(e.Ghosts) == 0 && len(e.DeletedVals) == 0 && len(e.orphan) == 0 && len(e.oooBlocks) == 0 && len(e.Optional) == 0 && len(e.MayMiss) == 0 && len(e.lostSticky) == 0 {
 		return e.Model
 	}
 	m := e.Model.Clone()
@@ -833,6 +845,19 @@ func (e *Exec) effective(d tsdbx.Dump) tsdbx.Expect {
 					delete(m[k], t)
 					e.MayMissObserved++
 				}
+			}
+		}
+	}
+	// samples already seen lost behind a merged out-of-order block stay lost (the block that proved
+	// the merge may since have been rewritten, e.g. by CleanTombstones, and lost its sources)
+	for k, ts := range e.lostSticky {
+		obs := map[int64]bool{}
+		for _, s := range d[k] {
+			obs[s.T] = true
+		}
+		for t := range ts {
+			if !obs[t] && m[k][t] != nil {
+				delete(m[k], t)
 			}
 		}
 	}
@@ -864,6 +889,13 @@ func (e *Exec) effective(d tsdbx.Dump) tsdbx.Expect {
 						if t >= rg[0] && t < rg[1] {
 							delete(ts, t)
 							e.LostBehindOOOMerge++
+							if e.lostSticky == nil {
+								e.lostSticky = map[string]map[int64]bool{}
+							}
+							if e.lostSticky[k] == nil {
+								e.lostSticky[k] = map[int64]bool{}
+							}
+							e.lostSticky[k][t] = true
 							break
 						}
 					}
@@ -1180,6 +1212,15 @@ func (e *Exec) CloneModel(dir string) *Exec {
 	x.maybeOOO = clone2(e.maybeOOO)
 	x.Ghosts = clone2(e.Ghosts)
 	x.orphan = clone2(e.orphan)
+	if len(e.lostSticky) > 0 {
+		x.lostSticky = map[string]map[int64]bool{}
+		for k, ts := range e.lostSticky {
+			x.lostSticky[k] = map[int64]bool{}
+			for t := range ts {
+				x.lostSticky[k][t] = true
+			}
+		}
+	}
 	for k, v := range e.deleted {
 		x.deleted[k] = append([][2]int64(nil), v...)
 	}
